@@ -3,7 +3,7 @@
 
     Vocabulary (Query/Plan.v, Query/Opt.v, Query/RunOpt.v):
       [sem G p]            rows of plan [p] on graph [G] (a list: bag + order)
-      [sem_e G p]          the same with the engine's Filter-on-Filter behaviour
+      [sem_e G p]          the same computed with the engine's selection vectors ([sem_e_pre]: before df57ccb)
       [pfd], [ppd]         transcriptions of push_filters_down / push_projections_down
       [reorder_chk b a]    [a] is a plan reorder_joins may return for [b]
       [optimize fp jr pp R p]  the pass under the three switches, [R] = what reorder_joins returns
@@ -129,22 +129,37 @@ Theorem switch_subsets_frontend : forall G fp jr pp (R : plan -> plan) p,
 Proof. exact switch_subsets_frontend_l. Qed.
 Print Assumptions switch_subsets_frontend.
 
-(** the executor's stacked filters *)
-Theorem engine_filters_agree_without_stacks : forall G p, no_stack p = true -> sem_e G p = sem G p.
-Proof. exact sem_e_no_stack. Qed.
-Print Assumptions engine_filters_agree_without_stacks.
-
-Theorem push_filters_engine_stack_refuted : exists G p,
-  uniform p = true /\ k_push p = false /\ no_stack p = true /\ no_stack (pfd p) = false /\
-  sem G (pfd p) = sem G p /\ List.length (sem_e G (pfd p)) <> List.length (sem_e G p).
-Proof. exact engine_stack_refuted_l. Qed.
-Print Assumptions push_filters_engine_stack_refuted.
+(** the executor's selection vectors: since df57ccb stacked filters compose, the engine's filter
+    semantics is the list semantics for every plan ... *)
+Theorem engine_filters_agree : forall G p, sem_e G p = sem G p.
+Proof. exact sem_e_sem. Qed.
+Print Assumptions engine_filters_agree.
 
 Theorem push_filters_sound_engine : forall G p,
-  uniform p = true -> k_push p = false -> no_stack p = true -> no_stack (pfd p) = true ->
-  sem_e G (pfd p) = sem_e G p.
+  uniform p = true -> k_push p = false -> sem_e G (pfd p) = sem_e G p.
 Proof. exact pfd_sound_engine. Qed.
 Print Assumptions push_filters_sound_engine.
+
+(** ... before it (finding C09-K3, repaired) only without stacks, and push-down builds stacks *)
+Theorem engine_filters_pre_agree_without_stacks : forall G p, no_stack p = true -> sem_e_pre G p = sem G p.
+Proof. exact sem_e_pre_no_stack. Qed.
+Print Assumptions engine_filters_pre_agree_without_stacks.
+
+Theorem push_filters_engine_stack_pre_refuted : exists G p,
+  uniform p = true /\ k_push p = false /\ no_stack p = true /\ no_stack (pfd p) = false /\
+  sem G (pfd p) = sem G p /\ List.length (sem_e_pre G (pfd p)) <> List.length (sem_e_pre G p).
+Proof. exact engine_stack_pre_refuted_l. Qed.
+Print Assumptions push_filters_engine_stack_pre_refuted.
+
+Theorem engine_filters_pre_refuted : exists G p, List.length (sem_e_pre G p) <> List.length (sem G p).
+Proof. exact engine_stack_pre_refuted_plain_l. Qed.
+Print Assumptions engine_filters_pre_refuted.
+
+Theorem push_filters_sound_engine_pre : forall G p,
+  uniform p = true -> k_push p = false -> no_stack p = true -> no_stack (pfd p) = true ->
+  sem_e_pre G (pfd p) = sem_e_pre G p.
+Proof. exact pfd_sound_engine_pre. Qed.
+Print Assumptions push_filters_sound_engine_pre.
 
 (** non-vacuity: the hypotheses hold on plans the passes really change *)
 From Coq Require Import String ZArith.
@@ -168,4 +183,10 @@ Example nv_jnf_permuted_leaves :
   let p := PJoin JCross [] (PFilter (EBin OGt (EProp "x" "v") (ELit (VInt 0%Z))) (PScan "x" (Some "A"))) (PScan "y" (Some "B")) in
   let q := PFilter (EBin OGt (EProp "x" "v") (ELit (VInt 0%Z))) (PJoin JCross [] (PScan "y" (Some "B")) (PScan "x" (Some "A"))) in
   jt_wf p = true /\ jt_wf q = true /\ jnf_eqb p q = true /\ plan_eqb p q = false.
+Proof. vm_compute. repeat split. Qed.
+
+Example nv_stack : let p := PFilter (EBin OEq (EProp "a" "v") (ELit (VInt 1%Z)))
+    (PJoin JCross [] (PScan "c" (Some "C"))
+       (PFilter (EHasLabel "b" "B") (PExpand "a" "b" None DOut (Some "R") (PScan "a" (Some "A"))))) in
+  uniform p = true /\ k_push p = false /\ no_stack p = true /\ no_stack (pfd p) = false.
 Proof. vm_compute. repeat split. Qed.
